@@ -16,6 +16,10 @@ the real molli code, judged by float64 numpy written in mc/props/c11_num.py:
   ens  ConformerEnsemble translate (1-D, 2-D), rotate (matrix, stack), center_at_atom, center_at_core,
        Conformer translate/transform/rotate_dihedral (one conformer of the stack)
   aln  align_to_ref_coords (ensemble and Molecule) from 6 initial poses, Kabsch func of the harness
+  hist a Substructure that is created and KEPT while its parent is edited (none / del_atom of an unselected
+       atom with a lower or a higher index / add_atom / parent.translate / parent.transform), then used for
+       translate, transform, coords=, read: atoms matched by identity; the same for a kept Conformer (and a
+       Substructure of it) across ensemble translate / rotate / center_at_core / an edit of another conformer
 
 Only ctx.seed-dependent thing: the global rotation G(seed) of the lattices and of the molecules.
 """
@@ -1044,8 +1048,268 @@ def part_aln(ctx, spec):
 
 
 # =====================================================================================================
-EXEC = {"rv": exec_rv, "ra": exec_ra, "mol": exec_mol, "dih": exec_dih, "ens": exec_ens, "aln": exec_aln}
-PARTS = {"rv_pairs": part_rv_pairs, "rv_anti": part_rv_anti, "ra": part_ra, "mol": part_mol, "dih": part_dih, "ens": part_ens, "aln": part_aln}
+# hist : a view that is KEPT while its parent is edited, then used
+#   Substructure created -> parent edit (none / del_atom of an unselected atom below or above the
+#   selection / add_atom / parent.translate / parent.transform) -> translate, transform, coords=, read
+#   through the kept Substructure.  Atoms are matched by identity, never by index.
+#   Conformer (and a Substructure of it) created -> ensemble edit -> edit through the kept view.
+# =====================================================================================================
+HIST_EDITS = ("none", "del_atom-lower-index", "del_atom-higher-index", "add_atom", "parent-translate", "parent-transform", "del_atom-lower-index+add_atom")
+HIST_OPS = ("translate", "transform", "coords=", "translate+transform", "coords-read")
+
+
+def _fresh_mol(ctx, name):
+    """an independent copy of the test molecule in the global pose (its atom table will be edited)"""
+    raw, base = _posed_mol(ctx, name)
+    m = ml.Molecule(raw)
+    m._coords = base.copy()
+    m.atomic_charges = np.zeros(m.n_atoms)
+    return m, base
+
+
+def exec_hist(ctx, case):
+    name = case["mol"]
+    sel = [int(x) for x in case["sel"]]
+    edit = case["edit"]
+    op = case["op"]
+    m, base = _fresh_mol(ctx, name)
+    atoms0 = list(m.atoms)
+    sel_atoms = [atoms0[i] for i in sel]
+    kind = "read" if op == "coords-read" else "write"
+    pre = f"kept-Substructure[parent-edit={edit}]:{kind}"
+    what = f"Substructure({sel}) of {name} kept across parent edit '{edit}', then {op}"
+    v = np.array(case.get("vec", [0.0, 0.0, 0.0]), dtype=float)
+    R = N.rot_axis_angle(*case["rot"]) if "rot" in case else np.eye(3)
+    ctx.count(evaluations=1, states=1, traces=1)
+    # ---- the history: create the view, edit the parent (harness set-up through the public API) ---------
+    try:
+        sub = m.substructure(list(sel))
+        ctx.count(transitions=1)
+        for step in edit.split("+"):
+            if step in ("del_atom-lower-index", "del_atom-higher-index"):
+                vi = int(case["victim"])
+                m.del_atom(atoms0[vi])
+            elif step == "add_atom":
+                m.add_atom(Atom("H", label="Hnew"), [float(x) for x in (np.mean(base, axis=0) + np.array([0.31, -0.27, 0.19]))], charge=0.0)
+            elif step == "parent-translate":
+                m.translate(np.array(case["pvec"], dtype=float))
+            elif step == "parent-transform":
+                m.transform(N.rot_axis_angle(*case["prot"]))
+            elif step != "none":
+                raise KeyError(step)
+            ctx.count(transitions=1)
+    except Exception as e:
+        ctx.violation(f"kept-Substructure[parent-edit={edit}]:set-up-raised-{_exc(e)}", f"{what}: creating the view / editing the parent raised {_exc(e)}: {e}", case)
+        return
+    cur = list(m.atoms)
+    mid = np.array(m.coords, dtype=float, copy=True)
+    pos = {id(a): i for i, a in enumerate(cur)}
+    if mid.shape != (len(cur), 3) or any(id(a) not in pos for a in sel_atoms):
+        # the parent edit itself misbehaved (C05's subject): nothing to decide about the view here
+        ctx.add_note("hist_cases_skipped_parent_edit_inconsistent")
+        return
+    cur_sel = [pos[id(a)] for a in sel_atoms]
+    srt = sorted(cur_sel)
+    expected = None
+    moved = cur_sel
+    try:
+        if op == "translate":
+            sub.translate(v.copy())
+            expected = mid[srt] + v
+        elif op == "transform":
+            sub.transform(R.copy())
+            expected = mid[srt] @ R
+        elif op == "coords=":
+            new = mid[cur_sel] @ R + v
+            sub.coords = new.copy()
+            expected = new[np.argsort(np.array(cur_sel), kind="stable")]
+        elif op == "translate+transform":
+            sub.translate(v.copy())
+            sub.transform(R.copy())
+            expected = (mid[srt] + v) @ R
+            ctx.count(transitions=1)
+        elif op == "coords-read":
+            got = np.array(sub.coords)
+            moved = []
+            if got.shape != (len(sel), 3) or got.tobytes() != mid[cur_sel].tobytes():
+                ctx.violation(f"{pre}:rows-of-other-atoms-returned", f"{what}: coords of the kept view are not the selected atoms' current rows", case)
+                ctx.outcome(("hist", edit, op, False))
+                return
+        else:
+            raise KeyError(op)
+        ctx.count(transitions=1)
+    except Exception as e:
+        ctx.violation(f"{pre}:raised-{_exc(e)}", f"{what} raised {_exc(e)}: {e}", case)
+        ctx.outcome(("hist", edit, op, "raised"))
+        return
+    if [id(a) for a in m.atoms] != [id(a) for a in cur]:
+        ctx.violation(f"{pre}:atom-table-changed", f"{what}: using the view changed the parent's atom table", case)
+        return
+    final = np.asarray(m.coords)
+    ok = judge_edit(ctx, pre, case, mid, final, moved, expected, Topo(m).stereo_quads(), what=what)
+    disp = float(np.max(np.abs(final - mid))) if final.shape == mid.shape and np.all(np.isfinite(final)) else -1
+    ctx.outcome(("hist", edit, op, ok, disp > 1e-6))
+    if ok and (disp > 1e-6 or op == "coords-read") and edit != "none":
+        ctx.nontrivial(("hist", name, tuple(sel), edit, case.get("victim"), op))
+
+
+def hist_cases(ctx, name):
+    topo = _topo("mol", name)
+    n = topo.n
+    G = _G(ctx)
+    lat = N.lattice_vectors(G)
+    out = []
+    for si, sel in enumerate(selections(topo)):
+        if len(set(sel)) == n:
+            continue  # nothing unselected to delete; kept views of everything are covered by add_atom below
+        unsel = [i for i in range(n) if i not in set(sel)]
+        lower = [i for i in unsel if i < max(sel)]
+        higher = [i for i in unsel if i > max(sel)]
+        for ei, edit in enumerate(HIST_EDITS):
+            victims = [None]
+            if edit.startswith("del_atom-lower-index"):
+                victims = sorted({lower[0], lower[-1]}) if lower else []
+            elif edit == "del_atom-higher-index":
+                victims = [higher[0]] if higher else []
+            for vi in victims:
+                for oi, op in enumerate(HIST_OPS):
+                    k = si + ei + oi
+                    case = {
+                        "family": "hist",
+                        "mol": name,
+                        "sel": list(sel),
+                        "edit": edit,
+                        "op": op,
+                        "vec": N.lst(lat[(7 * k + 3) % 78]),
+                        "rot": [N.lst(lat[(5 * k + 1) % 26]), ANGLES[3 + k % 8]],
+                        "pvec": N.lst(lat[(11 * k + 30) % 78]),
+                        "prot": [N.lst(lat[(3 * k + 2) % 26]), ANGLES[3 + (k + 4) % 8]],
+                    }
+                    if vi is not None:
+                        case["victim"] = vi
+                    out.append(case)
+    # a view of ALL atoms kept across add_atom: the new atom is not selected and must not move
+    allsel = list(range(n))
+    for oi, op in enumerate(HIST_OPS):
+        out.append({"family": "hist", "mol": name, "sel": allsel, "edit": "add_atom", "op": op, "vec": N.lst(lat[(oi + 40) % 78]), "rot": [N.lst(lat[oi + 4]), ANGLES[4 + oi]]})
+    return out
+
+
+def part_hist(ctx, spec):
+    name = spec
+    for i, case in enumerate(hist_cases(ctx, name)):
+        exec_hist(ctx, case)
+        if name == "twofrag" and case["edit"] == "del_atom-lower-index" and case["op"] == "translate" and len(case["sel"]) == 3:
+            ctx.sample(case)
+
+
+HISTENS_EDITS = ("none", "ens-translate[1d]", "ens-translate[2d]", "ens-rotate[matrix]", "ens-rotate[stack]", "ens-center_at_core", "other-conformer-translate")
+HISTENS_OPS = ("Conformer.translate", "Conformer.transform", "Substructure-of-Conformer.translate", "Substructure-of-Conformer.transform")
+
+
+def exec_histens(ctx, case):
+    name = case["ens"]
+    k = int(case["conf"])
+    edit = case["edit"]
+    op = case["op"]
+    sel = [int(x) for x in case["sel"]]
+    e, base = _posed_ens(ctx, name)
+    topo = _topo("ens", name)
+    nc, na = base.shape[0], base.shape[1]
+    pre = f"kept-Conformer[ensemble-edit={edit}]:{'substructure-' if op.startswith('Substructure') else ''}write"
+    what = f"conformer {k} of {name} (and Substructure {sel}) kept across '{edit}', then {op}"
+    v = np.array(case["vec"], dtype=float)
+    R = N.rot_axis_angle(*case["rot"])
+    ctx.count(evaluations=1, states=1, traces=1)
+    try:
+        cf = e[k]
+        sub = cf.substructure(list(sel))
+        if edit == "ens-translate[1d]":
+            e.translate(np.array(case["pvec"], dtype=float))
+        elif edit == "ens-translate[2d]":
+            e.translate(np.array([np.array(case["pvec"], dtype=float) * (1 + j) for j in range(nc)]))
+        elif edit == "ens-rotate[matrix]":
+            e.rotate(N.rot_axis_angle(*case["prot"]))
+        elif edit == "ens-rotate[stack]":
+            e.rotate(np.array([N.rot_axis_angle(case["prot"][0], case["prot"][1] + 0.3 * j) for j in range(nc)]))
+        elif edit == "ens-center_at_core":
+            e.center_at_core([0, 1, 2])
+        elif edit == "other-conformer-translate":
+            e[(k + 1) % nc].translate(np.array(case["pvec"], dtype=float))
+        elif edit != "none":
+            raise KeyError(edit)
+        ctx.count(transitions=2)
+    except Exception as ex:
+        ctx.violation(f"kept-Conformer[ensemble-edit={edit}]:set-up-raised-{_exc(ex)}", f"{what}: set-up raised {_exc(ex)}: {ex}", case)
+        return
+    mid = np.array(e.coords, dtype=float, copy=True)
+    try:
+        if op == "Conformer.translate":
+            cf.translate(v.copy())
+            moved, expected = list(range(na)), mid[k] + v
+        elif op == "Conformer.transform":
+            cf.transform(R.copy())
+            moved, expected = list(range(na)), mid[k] @ R
+        elif op == "Substructure-of-Conformer.translate":
+            sub.translate(v.copy())
+            moved, expected = sel, mid[k][sorted(set(sel))] + v
+        elif op == "Substructure-of-Conformer.transform":
+            sub.transform(R.copy())
+            moved, expected = sel, mid[k][sorted(set(sel))] @ R
+        else:
+            raise KeyError(op)
+        ctx.count(transitions=1)
+    except Exception as ex:
+        ctx.violation(f"{pre}:raised-{_exc(ex)}", f"{what} raised {_exc(ex)}: {ex}", case)
+        return
+    final = np.asarray(e.coords)
+    if final.shape != mid.shape:
+        ctx.violation(f"{pre}:coords-shape-or-dtype-changed", f"{what}: ensemble coords {mid.shape} -> {final.shape}", case)
+        return
+    ok = True
+    for j in range(nc):
+        if j != k and final[j].tobytes() != mid[j].tobytes():
+            ctx.violation(f"{pre}:other-conformer-changed", f"{what}: conformer {j} changed", case)
+            ok = False
+            break
+    if ok:
+        ok = judge_edit(ctx, pre, case, mid[k], final[k], moved, expected, topo.stereo_quads(), what=what)
+    ctx.outcome(("histens", edit, op, ok))
+    if ok and edit != "none":
+        ctx.nontrivial(("histens", name, k, edit, op))
+
+
+def part_histens(ctx, spec):
+    name = spec
+    e = _raw_ens(name)
+    topo = _topo("ens", name)
+    nc, na = e.coords.shape[0], e.coords.shape[1]
+    lat = N.lattice_vectors(_G(ctx))
+    sels = [topo.heavy(), [na - 1, 0, na // 2]]
+    for k in range(nc):
+        for ei, edit in enumerate(HISTENS_EDITS):
+            for oi, op in enumerate(HISTENS_OPS):
+                t = k + ei + oi
+                case = {
+                    "family": "histens",
+                    "ens": name,
+                    "conf": k,
+                    "edit": edit,
+                    "op": op,
+                    "sel": sels[t % 2],
+                    "vec": N.lst(lat[(7 * t + 5) % 78]),
+                    "rot": [N.lst(lat[(5 * t + 2) % 26]), ANGLES[3 + t % 8]],
+                    "pvec": N.lst(lat[(11 * t + 17) % 78]),
+                    "prot": [N.lst(lat[(3 * t + 9) % 26]), ANGLES[3 + (t + 3) % 8]],
+                }
+                exec_histens(ctx, case)
+                if k == 1 and ei == 3 and oi == 2 and name == "pentane_confs":
+                    ctx.sample(case)
+
+
+# =====================================================================================================
+EXEC = {"rv": exec_rv, "ra": exec_ra, "mol": exec_mol, "dih": exec_dih, "ens": exec_ens, "aln": exec_aln, "hist": exec_hist, "histens": exec_histens}
+PARTS = {"rv_pairs": part_rv_pairs, "rv_anti": part_rv_anti, "ra": part_ra, "mol": part_mol, "dih": part_dih, "ens": part_ens, "aln": part_aln, "hist": part_hist, "histens": part_histens}
 
 
 def _run_part(ctx, part):
@@ -1073,7 +1337,10 @@ def run(ctx):
         f"d in {list(D_MENU)}; every answer of a 12-entry menu (+ answers parallel / nearly parallel to v2 when they lie in [0,1)^3) "
         "for each call that consumes numpy.random.rand; angle menu; every acyclic bond with neighbours on both sides, both directions, x "
         + ("every (a,d) neighbour choice" if thorough else "every (a,d) neighbour choice (molecules up to 20 atoms; the first and the last choice for dendrobine - quick tier)")
-        + " x target menu; stated molecules/ensembles in the global pose. The result is 'holds at every lattice point' and says "
+        + " x target menu; stated molecules/ensembles in the global pose; for every test molecule and selection a Substructure KEPT across "
+        "each parent edit of {none, del_atom of an unselected atom with a lower / a higher index, add_atom, parent.translate, "
+        "parent.transform, del+add} and then used (translate, transform, coords=, both, read), atoms matched by identity; every conformer "
+        "view (and a Substructure of it) kept across 7 ensemble edits x 4 edits through the view. The result is 'holds at every lattice point' and says "
         "nothing about values outside the lattice. A case is non-trivial when it passes its oracle AND actually moves something "
         "(rotation angle != 0 mod 2pi, displacement > 1e-6, vectors not parallel)"
     )
@@ -1085,6 +1352,7 @@ def run(ctx):
         "documented effect of transform / ConformerEnsemble.rotate is coords @ M (their docstring examples)",
         "RNG answers are restricted to [0,1)^3, the range of numpy.random.rand; after the first enumerated answer the seam continues with different answers, as a real generator would",
         "alignment: func is a plain (un-centred) Kabsch in the P @ R ~ Q convention of scripts/align.py returning the true RMSD; conformers for which two index mappings fit equally well (gap < 1e-6) are excluded from the pose-independence comparison only",
+        "kept-view histories: the parent edit between creating and using a view is harness set-up through the public API (del_atom / add_atom with an explicit charge); whether that edit itself is consistent is C05's subject - the oracle compares the state after the view was used with the state right before, atom by atom",
         "rotate_dihedral is exercised on acyclic bonds only; dihedrals with collinear triples do not occur in the test molecules",
     ]
     ctx.bound.update(
@@ -1121,6 +1389,9 @@ def run(ctx):
     for name in ENS_ALL:
         for gk in [0] + ([1, 2] if thorough else []):
             parts.append(("ens", (name, gk)))
+        parts.append(("histens", name))
+    for name in mols:
+        parts.append(("hist", name))
     na = len(aln_cases(ctx))
     for lo, hi in _chunks(na, 8):
         parts.append(("aln", (lo, hi)))
